@@ -445,6 +445,11 @@ impl<'a> Lexer<'a> {
                 // - \u0020 (space)
                 // - \u00A0 (no-break space)
                 // - \uFEFF (BOM / zero-width no-break space)
+                Some('\u{FEFF}') if self.current_pos == 0 => {
+                    // A byte order mark at the very start of the source is not a column of line 1
+                    self.advance();
+                    self.column = 1;
+                }
                 Some(' ' | '\t' | '\r' | '\u{000B}' | '\u{000C}' | '\u{00A0}' | '\u{FEFF}') => {
                     self.advance();
                 }
@@ -822,19 +827,24 @@ impl<'a> Lexer<'a> {
                                 value.push(ch);
                             }
                         }
-                        Some((_, '\n')) => {
+                        Some((_, '\n' | '\u{2028}' | '\u{2029}')) => {
                             // Line continuation
                         }
+                        Some((_, '\r')) => {
+                            // Line continuation with CR or CRLF
+                            if self.peek() == Some('\n') {
+                                self.advance();
+                            }
+                        }
                         Some((_, c)) => value.push(c),
-                        None => break,
+                        None => return TokenKind::Invalid(quote),
                     }
                 }
-                Some((_, '\n')) => {
-                    // Unterminated string
-                    break;
+                Some((_, '\n' | '\r')) | None => {
+                    // Unterminated string: the offending token is the string itself
+                    return TokenKind::Invalid(quote);
                 }
                 Some((_, c)) => value.push(c),
-                None => break,
             }
         }
 
